@@ -88,7 +88,7 @@ func run(c *vf.Ctx) {
 		format := mutFormat(sps, m)
 		c.Seen("classes", class)
 		if r.hang != "" {
-			c.Inconclusive("go-git did not finish within 120 s on input %d (%s) in mode %s", m.N, class, r.hang)
+			c.Inconclusive("go-git did not finish within 300 s on input %d (%s) in mode %s", m.N, class, r.hang)
 			continue
 		}
 		if r.dead != "" {
@@ -273,12 +273,12 @@ func run(c *vf.Ctx) {
 	})
 
 	c.Extra("git_invocations", gitx.Calls.Load())
-	c.Floor("hostile inputs evaluated", c.Counter("accepted_by_some_mode")+c.Counter("rejected_by_all_modes")+c.Counter("idxread_inputs"), c.N(1400, 12000))
-	c.Floor("entry-point runs", c.Counter("mode_runs"), c.N(5500, 48000))
+	c.Floor("hostile inputs evaluated", c.Counter("accepted_by_some_mode")+c.Counter("rejected_by_all_modes")+c.Counter("idxread_inputs"), c.N(1400, 7000))
+	c.Floor("entry-point runs", c.Counter("mode_runs"), c.N(5500, 28000))
 	c.Floor("mutation classes", c.SeenCount("classes"), c.N(60, 70))
-	c.Floor("inputs accepted by go-git and checked against git", c.Counter("both_accept")+c.Counter("accepts_git_rejects"), c.N(150, 1000))
-	c.Floor("objects re-hashed independently", c.Counter("objects_rehashed"), c.N(10000, 150000))
-	c.Floor("git verdicts", c.Counter("git_confirmations"), c.N(250, 1500))
+	c.Floor("inputs accepted by go-git and checked against git", c.Counter("both_accept")+c.Counter("accepts_git_rejects"), c.N(150, 600))
+	c.Floor("objects re-hashed independently", c.Counter("objects_rehashed"), c.N(10000, 100000))
+	c.Floor("git verdicts", c.Counter("git_confirmations"), c.N(250, 900))
 	c.Floor("reads through git's idx over corrupted packs", c.Counter("idxread_reads"), c.N(2000, 40000))
 	c.Floor("children completed", c.Counter("children_ok"), nBatches)
 	c.Assume("git 2.39.5 `index-pack --stdin` (no --strict, no fsck) is the structural acceptor: it checks signature/version, entry types, inflation and declared sizes, delta offsets/bases and application, completeness (no unresolved deltas), object count and trailer; trailing bytes after the trailer are ignored by both sides on a stream")
@@ -532,11 +532,11 @@ func generate(c *vf.Ctx, sps []*seedPack) []Mut {
 					continue
 				}
 				// object counts >= 2^24 make go-git allocate gigabytes (see the crash finding): keep a few, they are slow
-				if off == 8 && !(bit == 7 && (quick && si%2 == 0 || !quick)) && !(bit == 6 && !quick && si == 0) {
+				if off == 8 && !(bit == 7 && (si == 0 || si == 2)) {
 					continue
 				}
-				if off == 9 && bit > 3 && quick {
-					continue
+				if off == 9 && bit > 3 {
+					continue // 2^20..2^23 announced objects: hundreds of megabytes per parse, slow on a loaded machine
 				}
 				add(Mut{Seed: si, Op: "flip", A: off, B: bit, Fix: true})
 			}
@@ -549,8 +549,8 @@ func generate(c *vf.Ctx, sps []*seedPack) []Mut {
 			add(Mut{Seed: si, Op: "version", A: v, Fix: true})
 		}
 		for ei, e := range sp.Entries {
-			if ei > 3 && (quick && (ei+si)%4 != 0 || !quick && (ei+si)%2 != 0) {
-				continue // quick tier: every fourth entry; thorough: every other entry
+			if ei > 3 && (quick && (ei+si)%4 != 0 || !quick && (ei+si)%3 != 0) {
+				continue // quick tier: every fourth entry; thorough: every third entry
 			}
 			// every bit of the header (type/size varint, ofs varint) for a third of the entries (all when thorough), 3 random bits otherwise; sampled bytes of a ref base
 			exhaustive := !quick || (ei+si)%4 == 0
